@@ -87,6 +87,32 @@ func facts(f *hc.Facts) {
 	} else {
 		f.Raw("def retryLoopsUnbounded : Bool := missing_fact_retryLoopsUnbounded -- uploadBigFilePart: " + big + " ## smallLoop: " + small)
 	}
+	// ---- statement structure of the two loops, interpreted by the model
+	src := func(fn string) string { return strings.Join(strings.Fields(f.FuncSrc("telegram/uploader", fn)), "") }
+	small, bigL, bigP := src("Uploader.smallLoop"), src("Uploader.bigLoop"), src("Uploader.uploadBigFilePart")
+	tri := func(name string, yes, no bool, comment string) {
+		switch {
+		case yes && !no:
+			f.Bool(name, true, comment)
+		case no && !yes:
+			f.Bool(name, false, comment)
+		default:
+			f.Raw("def " + name + " : Bool := missing_fact_" + name + " -- " + comment)
+		}
+	}
+	// FilePart of small files: sentParts % partsLimit
+	tri("smallPartIsModLimit", strings.Contains(small, "FilePart:int(upload.sentParts.Load())%partsLimit,"),
+		strings.Contains(small, "FilePart:int(upload.sentParts.Load()),"), "smallLoop: FilePart expression")
+	// part ids of big files: the plain counter, passed on unchanged
+	tri("bigPartIsCounter", strings.Contains(bigL, "id:int(upload.sentParts.Load()),") && strings.Contains(bigP, "FilePart:p.id,"),
+		strings.Contains(bigL, "id:int(upload.sentParts.Load())%partsLimit,") && strings.Contains(bigP, "FilePart:p.id,"),
+		"bigLoop: id expression; uploadBigFilePart: FilePart: p.id")
+	// the MD5 is fed by a TeeReader around the source (once per byte read), not inside the retry loop
+	tee := strings.Contains(small, "r:=io.TeeReader(upload.from,h)") && strings.Contains(small, "io.ReadFull(r,buf.Buf)") && !strings.Contains(small, "h.Write(")
+	perAttempt := !strings.Contains(small, "io.TeeReader(") && strings.Contains(small, "io.ReadFull(upload.from,buf.Buf)") && strings.Contains(small, "for{if_,err:=h.Write(read)")
+	tri("md5ViaTeeReader", tee, perAttempt, "smallLoop: io.TeeReader(upload.from, h) + io.ReadFull(r, …) / h.Write(read) inside the retry loop")
+	// FileTotalParts is read from upload.totalParts when the request is built
+	tri("totalPartsReadAtSend", strings.Contains(bigP, "FileTotalParts:p.upload.totalParts,"), false, "uploadBigFilePart: FileTotalParts: p.upload.totalParts")
 	f.TranslateFuncs("telegram/uploader", "checkPartSize", "checkPartSize", "computeParts", "computeParts", "computePartSize", "computePartSize")
 }
 
